@@ -7,6 +7,7 @@ package main
 
 import (
 	"fmt"
+	"hash/fnv"
 	"math"
 	"reflect"
 
@@ -21,8 +22,13 @@ var spareTracked [][]byte
 
 const spareSentinel = 0x5A
 
+// capSalt: derived from the text of the packet being built (packetFrom); it decides how much spare capacity the slices of
+// the value get, so that a case always gets the same shape (replays included). Go code must not let capacity reach the
+// wire (a size computed from cap() instead of len()): byte slices get 8..11 spare octets, other slices 0..3 spare elements.
+var capSalt uint64
+
 func trackedBytes(b []byte) []byte {
-	buf := make([]byte, len(b)+8)
+	buf := make([]byte, len(b)+8+int(capSalt%4))
 	copy(buf, b)
 	for i := len(b); i < len(buf); i++ {
 		buf[i] = spareSentinel
@@ -260,7 +266,7 @@ func fromSx(v reflect.Value, s *Sx) error {
 			v.Set(reflect.Zero(v.Type()))
 			return nil
 		}
-		out := reflect.MakeSlice(v.Type(), len(s.L), len(s.L))
+		out := reflect.MakeSlice(v.Type(), len(s.L), len(s.L)+int((capSalt>>2)%4))
 		for i, x := range s.L {
 			if err := fromSx(out.Index(i), x); err != nil {
 				return err
@@ -300,6 +306,9 @@ func fromSx(v reflect.Value, s *Sx) error {
 
 // packetFrom parses (TypeName ...) into a rtcp.Packet (pointer receiver form).
 func packetFrom(s *Sx) (rtcp.Packet, error) {
+	h := fnv.New64a()
+	h.Write([]byte(s.String()))
+	capSalt = h.Sum64() >> 7
 	p, err := fromTagged(s)
 	if err != nil {
 		return nil, err
